@@ -19,7 +19,7 @@ structure Flags where
   walkSliceNode : Bool := false
   /-- (#8) in_array: the string-set rewrite requires `Left.Type().Kind() == reflect.String` -/
   inArrayStrGuard : Bool := false
-  /-- (#9) in_range: the rewrite requires an integer kind on the left operand -/
+  /-- (#9) in_range: the rewrite requires a left operand of kind int, int64 or an unsigned kind (`rangeKd`) -/
   inRangeKindGuard : Bool := false
   /-- (#9) in_range: the rewrite requires a left operand that can be evaluated twice
       (identifier, `#`, integer literal, member chains of those) -/
